@@ -432,6 +432,97 @@ def dispatch(src):
     return res
 
 
+# ------------------------------------------------------------------ MockAssembler::new_call_pattern: ordered slot allocation
+def slot_alloc(src):
+    body = fn_body(src, r'fn\s+new_call_pattern\s*\(')
+    env = {'lo': '0', 'hi': '0', 'cur': 'cur'}
+    rname = None
+    nvar = None
+
+    def expr(e):
+        e = ws(e)
+        toks = re.findall(r'self\.current_call_index|\w+\.start|\w+\.end|\w+\.0|\d+|[+()]', e)
+        if ''.join(toks) != e:
+            raise Unrecognised(f'expression `{e}`')
+        out = []
+        for t in toks:
+            if t == 'self.current_call_index':
+                out.append(f'({env["cur"]})')
+            elif t == f'{rname}.start':
+                out.append(f'({env["lo"]})')
+            elif t == f'{rname}.end':
+                out.append(f'({env["hi"]})')
+            elif nvar and t == f'{nvar}.0':
+                out.append('n')
+            elif t in '+()' or t.isdigit():
+                out.append(t)
+            else:
+                raise Unrecognised(f'operand `{t}`')
+        return ' '.join(out)
+
+    def run_block(stmts):
+        nonlocal nvar
+        for t in stmts:
+            w = ws(t).rstrip(';')
+            m = re.fullmatch(r'let(\w+)=builder\.count_expectation\.exact_calls\(\)\.expect\(.*\)', w)
+            if m:
+                nvar = m.group(1)
+                continue
+            m = re.fullmatch(r'(\w+)\.(start|end)=(.*)', w)
+            if m and m.group(1) == rname:
+                env['lo' if m.group(2) == 'start' else 'hi'] = expr(m.group(3))
+                continue
+            m = re.fullmatch(r'self\.current_call_index=(.*)', w)
+            if m:
+                env['cur'] = expr(m.group(1))
+                continue
+            m = re.fullmatch(r'self\.current_call_index\+=(.*)', w)
+            if m:
+                env['cur'] = f'({env["cur"]}) + ({expr(m.group(1))})'
+                continue
+            raise Unrecognised(f'statement `{t[:60]}`')
+
+    cond = None
+    saw_struct = False
+    for t in live(statements(body)):
+        w = ws(t).rstrip(';')
+        m = re.fullmatch(r'letmut(\w+)(:[\w:<>]+)?=Default::default\(\)', w)
+        if m and rname is None:
+            rname = m.group(1)
+            continue
+        if w.startswith('if') and cond is None and rname:
+            i = t.index('{')
+            parts = ws(t[2:i]).split('&&')
+            cs = []
+            for c in parts:
+                if c in ('builder.pattern_match_mode==PatternMatchMode::InOrder', 'PatternMatchMode::InOrder==builder.pattern_match_mode'):
+                    cs.append('ordered')
+                elif c in ('builder.pattern_match_mode!=PatternMatchMode::InAnyOrder',):
+                    cs.append('ordered')
+                else:
+                    mm = re.fullmatch(r'letSome\((\w+)\)=builder\.count_expectation\.exact_calls\(\)', c)
+                    if mm:
+                        nvar = mm.group(1)
+                        cs.append('isExact')
+                    else:
+                        raise Unrecognised(f'condition `{c}`')
+            j = close(t, i)
+            if t[j:].strip():
+                raise Unrecognised('else branch in new_call_pattern')
+            run_block(live(statements(t[i + 1:j - 1])))
+            cond = ' && '.join(cs)
+            continue
+        if w.startswith('CallPattern{') and rname:
+            inner = w[len('CallPattern{'):-1]
+            if re.search(r'(^|,)' + rname + r'(,|$)', inner) and rname == 'ordered_call_index_range' or re.search(r'ordered_call_index_range:' + rname + r'(,|$)', inner):
+                saw_struct = True
+                continue
+        raise Unrecognised(f'statement `{t[:60]}`')
+    if cond is None or not saw_struct:
+        raise Unrecognised('shape of new_call_pattern')
+    return f'if {cond} then ({env["lo"]}, {env["hi"]}, {env["cur"]}) else (0, 0, cur)'
+
+
 # ------------------------------------------------------------------ emit
 FALLBACK = {
     'teardown': '[.setTornDown, .dropHelper, .dropChain, .retOkIfNotOriginal, .retOkIfPanicking, .panicIfStrongGt 1, .panicIfOtherThread, .errIfReasons, .verify]',
@@ -440,6 +531,7 @@ FALLBACK = {
     'noverify': '[.panicIfNotOriginal, .clearVerifyInDrop]',
     'new': {'original_instance': 'true', 'torn_down': 'false', 'verify_in_drop': 'true'},
     'clone': {'original_instance': 'false', 'torn_down': 'false', 'verify_in_drop': 'src.verifyInDrop'},
+    'slots': 'if ordered then (cur, cur + n, cur + n) else (0, 0, cur)',
     'nomocker': '(.ifDefault (.leaf .callDefault) (.ifPartial (.leaf .unmock) (.onFallback (.leaf .errNoMockImplementation) (.leaf .unmock))))',
     'nomatch': '(.onFallback (.leaf .errNoMatchingCallPatterns) (.leaf .unmock))',
     'dispatch': {'Return': '.returnOrCannotReturnTwice', 'Answer': '.contAnswer', 'Panic': '.errExplicitPanic', 'Unmock': '.contUnmock',
@@ -487,6 +579,8 @@ def main():
         got['nomocker'], got['nomatch'] = (FALLBACK['nomocker'], False), (FALLBACK['nomatch'], False)
         notes.append(f'eval_dyn: {e}')
     attempt('dispatch', lambda: dispatch(ev))
+    asm = strip_comments(open(os.path.join(ROOT, 'assemble.rs')).read())
+    attempt('slots', lambda: slot_alloc(asm))
 
     def b(x):
         return 'true' if x else 'false'
@@ -497,7 +591,7 @@ def main():
     L.append('/-! GENERATED by tools/translate_control.py from /repo/src/{teardown,lib,eval}.rs — do not edit. -/')
     L.append('namespace Unimock.Generated')
     L.append('open Unimock.Gates')
-    for k in ('teardown', 'drop', 'verify', 'noverify', 'new', 'clone', 'nomocker', 'nomatch', 'dispatch'):
+    for k in ('teardown', 'drop', 'verify', 'noverify', 'new', 'clone', 'nomocker', 'nomatch', 'dispatch', 'slots'):
         L.append(f'def recognised_{k} : Bool := {b(got[k][1])}')
     L.append(f'def teardownSteps : List Step := {got["teardown"][0]}')
     L.append(f'def dropSteps : List DStep := {got["drop"][0]}')
@@ -516,6 +610,9 @@ def main():
         L.append(f'  | .{v} => {dp[k]}')
     L.append(f'def dispatchEvalUnmock : Disp := {dp["@Unmock"]}')
     L.append(f'def dispatchEvalCallDefault : Disp := {dp["@CallDefaultImpl"]}')
+    L.append('/-- `MockAssembler::new_call_pattern`: (range.start, range.end, current_call_index afterwards) from whether the pattern is')
+    L.append('    ordered, whether its count expectation is exact (always so for ordered ones: type-state), the index so far, the exact count -/')
+    L.append(f'def slotAlloc (ordered isExact : Bool) (cur n : Nat) : Nat × Nat × Nat :=\n  {got["slots"][0]}')
     L.append('end Unimock.Generated')
     text = '\n'.join(L) + '\n'
     old = open(OUT).read() if os.path.exists(OUT) else None
